@@ -84,7 +84,7 @@ func runC07(r *Run) {
 	}
 	collect(tr)
 	r.R.SetCount("Transform closures analysed", len(fns)-1)
-	r.R.Floor(P+".closures.floor", "instance floor", len(fns)-1, 14, "closures of Transform")
+	r.R.Floor(P+".closures.floor", "instance floor", len(fns)-1, 10, "closures of Transform")
 
 	// identify checkError / setError closures by role
 	var checkErr, setErr *ssa.Function
@@ -211,10 +211,10 @@ func runC07(r *Run) {
 	}
 	for _, s := range sites {
 		found := ""
-		if setErr != nil {
+		if setErr != nil || checkErr != nil {
 			for _, f := range fns {
 				ff := r.E.Facts(f, core.Ctx{})
-				for _, c := range callsOfClosure(f, setErr) {
+				for _, c := range fixedErrCalls(f, setErr, checkErr) {
 					if s.id == "trailing" && f != tr {
 						continue
 					}
@@ -288,6 +288,7 @@ func runC07(r *Run) {
 		}
 		r.R.Check(okFmt, P+".es6.switch", "E3 normal form with spec constants: fixed notation ('f') exactly under 1e-6 ≤ |x| < 1e21, exponent notation otherwise", core.FuncName(f), r.where(f),
 			"ECMAScript Number::toString switches notation at exactly these thresholds; other thresholds change the spelling of numbers and hence every hash over them", "'f' iff 1e-6 ≤ x < 1e21", "format selection not as prescribed")
+		r.checkES6Sign(P, f)
 	}
 
 	// --- byte classes
@@ -389,6 +390,10 @@ func closureCallTarget(c *ssa.Call) *ssa.Function {
 				if mc, ok := st.Val.(*ssa.MakeClosure); ok {
 					n++
 					target = mc.Fn.(*ssa.Function)
+				} else if fn, ok := st.Val.(*ssa.Function); ok {
+					// a literal that captures nothing is a plain function value
+					n++
+					target = fn
 				} else if !isNilConstV(st.Val) {
 					n += 2
 				}
@@ -527,6 +532,7 @@ func (r *Run) checkSortKey(P string, tr *ssa.Function, fns []*ssa.Function) {
 // one of the JSON literals (under equality with the token) or
 // NumberToJSON(ParseFloat(token, 64)) — no number token is emitted as written.
 func (r *Run) checkNumberRoute(P string, fns []*ssa.Function) {
+	checkErr, setErr := jcsErrClosures(fns[0], fns)
 	var numFn *ssa.Function
 	for _, f := range fns {
 		if len(r.callsIn(f, "strconv.ParseFloat")) > 0 {
@@ -566,21 +572,9 @@ func (r *Run) checkNumberRoute(P string, fns []*ssa.Function) {
 	// closure is a private number grammar, and the canonical form's own spelling (1e+21) must stay acceptable
 	nSet, okSet := 0, true
 	var detSet []string
-	for _, b := range numFn.Blocks {
-		if !ff.Live[b] {
-			continue
-		}
-		for _, ins := range b.Instrs {
-			c, ok := ins.(*ssa.Call)
-			if !ok {
-				continue
-			}
-			tgt := closureCallTarget(c)
-			if tgt == nil || tgt.Signature.Params().Len() != 1 || tgt.Signature.Results().Len() != 0 {
-				continue
-			}
-			// closures taking a string message are the error-setting ones; those taking an error forward ParseFloat / NumberToJSON errors
-			if bt, isB := tgt.Signature.Params().At(0).Type().Underlying().(*types.Basic); !isB || bt.Kind() != types.String {
+	for _, c := range fixedErrCalls(numFn, setErr, checkErr) {
+		{
+			if !ff.Live[c.Block()] {
 				continue
 			}
 			nSet++
@@ -838,4 +832,92 @@ func (r *Run) checkEscapeTables(P string) {
 	}
 	r.R.Check(okU, P+".tables.control", "constant: other control characters are written as \\u%04x (lower-case hex, four digits)", "jsoncanonicalizer.decorateString", "-", "RFC 8785 requires lower-case \\u00xx for the remaining control characters", "\\u%04x", "format not found")
 
+}
+
+// fixedErrCalls: the calls in f that record an error the canonicalizer itself raises — a call of the message closure
+// (setError) or a call of the recording closure (checkError) with a value that does not come from a fallible call: a
+// package-level sentinel, errors.New / fmt.Errorf in place.
+func fixedErrCalls(f, setErr, checkErr *ssa.Function) []*ssa.Call {
+	var out []*ssa.Call
+	for _, b := range f.Blocks {
+		for _, ins := range b.Instrs {
+			c, ok := ins.(*ssa.Call)
+			if !ok {
+				continue
+			}
+			t := closureCallTarget(c)
+			if t == nil {
+				continue
+			}
+			if setErr != nil && t == setErr {
+				out = append(out, c)
+				continue
+			}
+			if checkErr != nil && t == checkErr && f != setErr && len(c.Common().Args) == 1 {
+				switch a := c.Common().Args[0].(type) {
+				case *ssa.UnOp:
+					if _, isG := a.X.(*ssa.Global); isG {
+						out = append(out, c)
+					}
+				case *ssa.Call:
+					if sc := a.Common().StaticCallee(); sc != nil && (sc.String() == "errors.New" || sc.String() == "fmt.Errorf") {
+						out = append(out, c)
+					}
+				}
+			}
+		}
+	}
+	return out
+}
+
+// jcsErrClosures identifies, by role, the closure that writes the error variable Transform returns (checkError) and
+// the closure that hands it errors.New(message) (setError); either may be nil.
+func jcsErrClosures(tr *ssa.Function, fns []*ssa.Function) (checkErr, setErr *ssa.Function) {
+	var errAlloc *ssa.Alloc
+	for _, b := range tr.Blocks {
+		if ret, ok := b.Instrs[len(b.Instrs)-1].(*ssa.Return); ok && len(ret.Results) > 0 {
+			if u, ok := ret.Results[len(ret.Results)-1].(*ssa.UnOp); ok {
+				errAlloc, _ = u.X.(*ssa.Alloc)
+			}
+		}
+	}
+	if errAlloc == nil {
+		return nil, nil
+	}
+	for _, f := range fns {
+		if f == tr {
+			continue
+		}
+		for _, b := range f.Blocks {
+			for _, ins := range b.Instrs {
+				if st, ok := ins.(*ssa.Store); ok {
+					if fv, ok := st.Addr.(*ssa.FreeVar); ok && freeVarBinds(f, fv, errAlloc) {
+						checkErr = f
+					}
+				}
+			}
+		}
+	}
+	if checkErr == nil {
+		return nil, nil
+	}
+	for _, f := range fns {
+		for _, c := range callsOfClosure(f, checkErr) {
+			if cc, ok := c.Common().Args[0].(*ssa.Call); ok {
+				if sc := cc.Common().StaticCallee(); sc != nil && sc.String() == "errors.New" && len(f.Params) == 1 {
+					setErr = f
+				}
+			}
+		}
+	}
+	return checkErr, setErr
+}
+
+func isFixedErrCall(c *ssa.Call, f, setErr, checkErr *ssa.Function) bool {
+	for _, x := range fixedErrCalls(f, setErr, checkErr) {
+		if x == c {
+			return true
+		}
+	}
+	return false
 }
